@@ -19,7 +19,8 @@ TIMEOUT = {'quick': 1200, 'thorough': 7200}
 MUST_HIT = ['Outcome.new', 'ShadowModel.compare', 'LinkMirror', 'Atomicity.rejected',
             'Outcome.RelateException', 'Outcome.UnrelateException',
             'Outcome.UnknownLinkException', 'Outcome.DeleteException', 'Schema.random',
-            'Schema.random-three-or-more-associations']
+            'Schema.random-three-or-more-associations', 'Schema.ooaofooa-part',
+            'Schema.ooaofooa-part-with-compound-key']
 MUST_REACH = ['xtuml/meta.py:relate', 'xtuml/meta.py:unrelate', 'xtuml/meta.py:_find_link',
               'xtuml/meta.py:Link.connect', 'xtuml/meta.py:Link.disconnect',
               'xtuml/meta.py:MetaClass.delete', 'xtuml/meta.py:Association.formalize']
@@ -185,14 +186,20 @@ class Mismatch(Exception):
 
 
 def setup(schema, pool, route, seed_values=True):
-    m = build_api(schema) if route == 'api' else build_loader(schema)
+    if route == 'ooaofooa':
+        # the complete ooaofooa metamodel (about 400 classes, 650 associations); the schema is a part of it
+        from bridgepoint import ooaofooa
+        import xtuml
+        m = ooaofooa.ModelLoader(load_globals=False).build_metamodel(xtuml.IntegerGenerator())
+    else:
+        m = build_api(schema) if route == 'api' else build_loader(schema)
     b = Bound(schema, m)
     handles = []
     for n, (kind, i) in enumerate(pool):
         vals = {}
         ref = set(a.upper() for a in schema.referential(kind))
         for a, ty in schema.attrs(kind):
-            if a.upper() in ref:
+            if a.upper() in ref or (kind.upper(), a.upper()) in getattr(schema, 'external_refs', ()):
                 continue
             if ty == 'INTEGER':
                 vals[a] = 10 + n
@@ -421,6 +428,27 @@ def run(ctx):
         try:
             nt = run_history(ctx, schema, pool, route, hist, every=16)
             ctx.case(('rnd', name, route, hist), nt)
+            ctx.count('random_histories')
+            ctx.count('random_calls', len(hist))
+        except Mismatch as e:
+            ctx.violation(e.key, e.what, case=case)
+
+    # histories on the complete ooaofooa metamodel (about 320 classes, 650 associations as shipped in
+    # bridgepoint/schema.py); the shadow follows a connected part of it read from the schema text
+    from vf import realschema
+    for i in range(ctx.share(32 if ctx.tier == 'quick' else 1600)):
+        schema = realschema.sub_schema(rng, rng.randint(3, 7))
+        if not schema.rops:
+            continue
+        pool = make_pool(schema, rng.randint(2, 3))
+        hist = random_history(rng, schema, pool, rng.randint(100, 300 if ctx.tier == 'quick' else 800))
+        case = dict(shape='ooaofooa-part', schema=schema.to_json(), pool=pool, route='ooaofooa', history=hist)
+        try:
+            nt = run_history(ctx, schema, pool, 'ooaofooa', hist, every=16)
+            ctx.case(('real', tuple(r.describe() for r in schema.rops), hist), nt)
+            ctx.hit('Schema.ooaofooa-part')
+            if any(len(r.src_keys) > 1 for r in schema.rops):
+                ctx.hit('Schema.ooaofooa-part-with-compound-key')
             ctx.count('random_histories')
             ctx.count('random_calls', len(hist))
         except Mismatch as e:
